@@ -10,10 +10,11 @@ PAR=${PAR:-5}
 export VERIF_WORKERS=${VERIF_WORKERS:-4}
 one() {
   d=$1; id=$(basename "$d"); c=${id%%-*}
+  ju=$(python3 -c "import json,sys; print(json.load(open(sys.argv[1])).get('judged_under',''))" "$d/meta.json"); [ -n "$ju" ] && c=$ju
   python3 - "$d/meta.json" <<'PY' || exit 0
 import json,sys
 m=json.load(open(sys.argv[1]))
-ok=m.get("applies") and m.get("compiles") and m.get("existing_suite_passes_with_change") and m.get("demo_fails_with_change") and m.get("demo_passes_without_change")
+ok=not m.get("excluded") and m.get("applies") and m.get("compiles") and m.get("existing_suite_passes_with_change") and m.get("demo_fails_with_change") and m.get("demo_passes_without_change")
 sys.exit(0 if ok else 1)
 PY
   SW=/tmp/seedown.$id.$$; SC=$V/.work/own.$id.$$
